@@ -677,7 +677,57 @@ def quirk_stream(ctx):
     ctx.coverage["informational_quirks"] = out
 
 
+def to_tuple(x):
+    """JSON round trip turns the tuples of an AST into lists"""
+    if isinstance(x, list):
+        return tuple(to_tuple(t) for t in x)
+    return x
+
+
+def replay(ctx, path):
+    """re-run the one comparison a replay file records"""
+    d = json.load(open(path))
+    sig = d.get("signature", "replay")
+    if "expr_text" in d:
+        e = to_tuple(d["ast"])
+        r = lib.run_tasks([{"kind": "c19_eval", "exprs": [d["expr_text"]], "points": d["points"]}], timeout=120)[0]["results"][0]
+        want = [T.sx_eval(e, {a: Fraction(b) for a, b in pt.items()}) for pt in d["points"]]
+        got = r.get("values")
+        ctx.count({"t": d["expr_text"]})
+        if "err" in r or any(v is not None and (pv.startswith("?") or Fraction(pv) != v) for v, pv in zip(want, got)):
+            ctx.violation(sig, dict(d, polar=r), d.get("what", "replayed arithmetic text still differs"))
+        return
+    if "text_a" in d:
+        rs = lib.run_tasks([{"kind": "c19_analyze", "text": d[k], "goals": ["a", "b", "a**2", "a*b", "a*f"], "nmax": 6, "timeout": 150}
+                            for k in ("text_a", "text_b")], timeout=150)
+        ctx.count({"t": d["text_a"]})
+        va = {g: v.get("values") for g, v in rs[0].get("goals", {}).items()}
+        vb = {g: v.get("values") for g, v in rs[1].get("goals", {}).items()}
+        if va != vb or "goals" not in rs[0]:
+            ctx.violation(sig, dict(d, polar_a=rs[0], polar_b=rs[1]), d.get("what", "replayed spellings still differ"))
+        elif "reference" in d and rs[0]["goals"][d["goal"]]["values"][d["n"]] != d["polar"]:
+            pass
+        elif "reference" in d:
+            ctx.violation(sig, d, d.get("what"))
+        return
+    if "text" in d:
+        r = lib.run_tasks([{"kind": "c19_parse", "texts": [d["text"]]}], timeout=120)[0]["results"][0]
+        ctx.count({"t": d["text"]})
+        if "mutation" in d or "probabilities" in d:
+            if "ok" in r or "dump_error" in r:
+                ctx.violation(sig, dict(d, polar=r), d.get("what", "replayed text is still accepted"))
+        elif "model_dump" in d:
+            if r.get("ok") != d["model_dump"]:
+                ctx.violation(sig, dict(d, polar=r), d.get("what", "replayed spelling still parses differently"))
+        return
+    ctx.violation("replay:unknown-format", {"path": path}, "replay file has no recognised input", no_input=True)
+
+
 def run(ctx):
+    if ctx.replay:
+        ctx.coverage["rule"] = "replay of " + str(ctx.replay)
+        replay(ctx, ctx.replay)
+        return
     ok, log = lib.coq_check_props(ctx)
     if not ok:
         ctx.violation("proof-broken", {"theorem": "props/C19.v", "log": log[-3000:]}, "props/C19.v no longer checks", no_input=True)
